@@ -223,7 +223,7 @@ def new_group(st, r, kind):
     defined = st.names()
     # items: defined names or pool names of a type that may stand there; only strictly
     # lower-ranked groups, so nesting is a DAG whatever the order of definition
-    pools = ["S", "E", "O"] if kind == "O" else ["S", "E", "G", "O", "U"]
+    pools = ["S", "E", "G", "O"] if kind == "O" else ["S", "E", "G", "O", "U"]
     cands = []
     for k in pools:
         for n in POOL[k]:
@@ -240,6 +240,13 @@ def new_group(st, r, kind):
     k = r.randint(1, 4)
     if kind == "O":
         items = [gen.choice(r, cands) + gen.choice(r, "+-") for _ in range(k)]
+        if all(n[:-1] in POOL["G"] or (st.model.by_name(n[:-1]) is not None and st.model.by_name(n[:-1]).rt == "G")
+               for n in items):
+            nong = [n for n in cands if n not in POOL["G"] and
+                    (st.model.by_name(n) is None or st.model.by_name(n).rt != "G")]
+            if not nong:
+                return None
+            items.append(gen.choice(r, nong) + "+")
     else:
         items = [gen.choice(r, cands) for _ in range(k)]
         if all(n in POOL["G"] or (st.model.by_name(n) is not None and st.model.by_name(n).rt == "G")
@@ -250,11 +257,25 @@ def new_group(st, r, kind):
             if not nong:
                 return None
             items.append(gen.choice(r, nong))
-    return [kind, [pid, " ".join(items)], gen.gen_tags(r, "gfa2", kind, True, maxn=1)]
+    return [kind, [pid, " ".join(items)], gen.gen_tags(r, "gfa2", kind, True, maxn=3)]
+
+
+def duplicate_record(st, r):
+    """A textual copy of an existing record of a kind that may legally occur twice
+    (containments, unnamed edges and gaps, fragments): identical dependants."""
+    cands = [x for x in st.model.recs if (x.rt == "C" and x.tag("ID") is None) or x.rt == "F" or
+             (x.rt in ("E", "G") and x.pos[0] == "*")]
+    if not cands:
+        return None
+    return gen.choice(r, cands).plain()
 
 
 def new_record(st, r):
     """A record that may legally be added to the current model state, or None."""
+    if gen.chance(r, 0.08):
+        d = duplicate_record(st, r)
+        if d is not None:
+            return d
     if st.version == "gfa1":
         k = r.randrange(10)
         if k < 3 or not st.model.segments():
@@ -349,6 +370,9 @@ def gen_history(r, version, opts=None):
             rec = st.model.recs[i]
             kind = rec.rt if rec.rt in POOL else "S"
             new = st.free_name(kind, r, allow_undefined=False)
+            if rec.rt in ("E", "G", "O", "U") and gen.chance(r, 0.25) and \
+                    not any(m_[0] == M.name_of(rec) for x in st.model.recs for m_ in M.mentions(x)):
+                new = "*"  # an edge, gap or group which nobody mentions may become unnamed
             if new is None or (version == "gfa1" and "," in new):
                 continue
             old = M.name_of(rec)
